@@ -103,7 +103,7 @@ func (ms *mapStruct) ptr(offset int64, l int32) ([]byte, error) {
 	//log.Printf("-> reading %d bytes from %d into buffer at offset=%d", readSize, readStart, readOffset)
 	for readSize > 0 {
 		n, err := ms.f.Read(ms.window[readOffset : readOffset+readSize])
-		if err != nil {
+		if err != nil && !(err == io.EOF && n > 0) {
 			ms.err = err
 			// TODO: zero the buffer, file has changed mid-transfer
 			return nil, fmt.Errorf("file has changed mid-transfer")
